@@ -411,15 +411,6 @@ where
         index: usize,
         entity_allocator: &mut entity::Allocator<R>,
     ) {
-        // SAFETY: `self.components` contains the same number of bits as are set in
-        // `self.identifier`. Also, each entry is `self.components` is guaranteed to contain the
-        // raw parts for a valid `Vec<C>` for each `C` identified by `self.identifier`. Finally,
-        // `self.identifier` is generic over the same registry `R` as this method is being called
-        // on.
-        unsafe {
-            R::remove_component_row(index, &self.components, self.length, self.identifier.iter());
-        }
-
         let mut entity_identifiers = ManuallyDrop::new(
             // SAFETY: `self.entity_identifiers` is guaranteed to contain the raw parts for a valid
             // `Vec` of size `self.length`.
@@ -448,7 +439,20 @@ where
         }
         entity_identifiers.swap_remove(index);
 
+        let length = self.length;
         self.length -= 1;
+
+        // The components are removed (and dropped) last, so that a panicking `Drop` implementation
+        // finds the row already detached from the archetype.
+        //
+        // SAFETY: `self.components` contains the same number of bits as are set in
+        // `self.identifier`. Also, each entry is `self.components` is guaranteed to contain the
+        // raw parts for a valid `Vec<C>` of length `length` for each `C` identified by
+        // `self.identifier`. Finally, `self.identifier` is generic over the same registry `R` as
+        // this method is being called on.
+        unsafe {
+            R::remove_component_row(index, &self.components, length, self.identifier.iter());
+        }
     }
 
     /// # Safety
